@@ -1,14 +1,18 @@
 package props
 
 import (
+	"bytes"
 	"encoding/json"
 	"fmt"
+	"go/token"
 	"reflect"
 	"sort"
 	"strings"
 
 	"github.com/dave/dst"
 	"github.com/dave/dst/decorator"
+	"github.com/dave/dst/decorator/resolver/goast"
+	"github.com/dave/dst/decorator/resolver/simple"
 
 	"verif/core"
 	"verif/gen"
@@ -22,9 +26,31 @@ type c06Case struct {
 	Mode     string `json:"mode"`   // "clone" (node index) | "share" (node index A into slot index S)
 	Node     int    `json:"node"`
 	Slot     int    `json:"slot,omitempty"`
+	Imports  bool   `json:"imports,omitempty"` // import-bearing template, decorated with a resolver, restored with import management
+}
+
+// c06Print prints with or without import management, according to the case.
+func c06Print(cs c06Case, f *dst.File) (string, error) {
+	if !cs.Imports {
+		return printFile(f)
+	}
+	var buf bytes.Buffer
+	err := decorator.NewRestorerWithImports(localPath, simple.New(stdNames)).Fprint(&buf, f)
+	return buf.String(), err
 }
 
 func c06Tree(cs c06Case) *dst.File {
+	if cs.Imports {
+		t, ok := gen.Find(importTemplates(), cs.Template)
+		if !ok {
+			panic("unknown import template " + cs.Template)
+		}
+		f, err := decorator.NewDecoratorWithImports(token.NewFileSet(), localPath, goast.WithResolver(simple.New(stdNames))).Parse(t.Src)
+		if err != nil {
+			panic(err)
+		}
+		return f
+	}
 	t, ok := gen.Find(gen.Templates(), cs.Template)
 	if !ok {
 		panic("unknown template " + cs.Template)
@@ -44,13 +70,18 @@ func init() {
 		ID:    "C06",
 		Level: "model_checking",
 		Rule: "every node instance of every corpus tree, as parsed and with every decoration point of every node filled: Clone compared field by field (reflection), storage disjointness of everything reachable, " +
-			"mutation of every decoration list / slice / scalar of either side leaves the other unchanged, clone substituted in its parent prints identically; every (node, type-compatible slot) pair: shared placement must panic " +
+			"mutation of every decoration list / slice / scalar of either side leaves the other unchanged, clone substituted in its parent prints identically; every (node, type-compatible slot) pair, and every path-carrying identifier of the import-bearing templates under import management: shared placement must panic " +
 			"'duplicate node' with no output, cloned placement prints both; state = (tree variant, node[, slot]); non-trivial = node with children or decorations",
 		Assumptions: []string{"reflection sees all exported fields (dst nodes have no unexported state)"},
 		Units: func(tier string) []string {
 			var u []string
 			for _, t := range gen.Templates() {
 				u = append(u, t.Name+"/plain", t.Name+"/filled", t.Name+"/share")
+			}
+			for _, t := range importTemplates() {
+				if t.Name != "cgo" {
+					u = append(u, "imports-share/"+t.Name)
+				}
 			}
 			return u
 		},
@@ -66,6 +97,47 @@ func init() {
 }
 
 func runC06(ctx *core.Ctx, unit int) {
+	if n := 3 * len(gen.Templates()); unit >= n {
+		// path-carrying identifiers shared between two places of an import-managed tree
+		var names []string
+		for _, t := range importTemplates() {
+			if t.Name != "cgo" {
+				names = append(names, t.Name)
+			}
+		}
+		base := c06Case{Template: names[unit-n], Imports: true}
+		f := c06Tree(base)
+		nodes := allNodes(f)
+		slots := allSlots(f)
+		for ai, a := range nodes {
+			id, ok := a.(*dst.Ident)
+			if !ok || id.Path == "" {
+				continue
+			}
+			per := 0
+			for si, s := range slots {
+				if s.Get() == a || !s.Accepts(a) || typeName(s.Parent) == "ImportSpec" {
+					continue
+				}
+				switch typeName(s.Parent) + "." + s.Field {
+				case "File.Name", "Field.Names", "LabeledStmt.Label", "BranchStmt.Label", "ValueSpec.Names", "TypeSpec.Name", "FuncDecl.Name", "SelectorExpr.Sel":
+					continue // declaring positions: a path-carrying identifier is (rightly) refused there for another reason
+				}
+				if _, isIdent := s.Get().(*dst.Ident); !isIdent {
+					continue // keep the tree printable: identifiers replace identifiers
+				}
+				if per++; per > 6 && !ctx.Thorough() {
+					break
+				}
+				cs := base
+				cs.Mode, cs.Node, cs.Slot = "share", ai, si
+				ctx.State(fmt.Sprintf("imports|%s|%d|%d", cs.Template, ai, si), true)
+				ctx.Eval(cs, c06Check(cs))
+				ctx.R.Transitions++
+			}
+		}
+		return
+	}
 	t := gen.Templates()[unit/3]
 	switch unit % 3 {
 	case 0, 1:
@@ -333,7 +405,7 @@ func c06Share(cs c06Case, f *dst.File, a dst.Node, fail func(string, string, ...
 	s.Set(a)
 	var out string
 	var err error
-	p := guard(func() { out, err = printFile(f) })
+	p := guard(func() { out, err = c06Print(cs, f) })
 	if p == "" {
 		return fail("shared-node-not-rejected", "%s: restore did not panic (err=%v); output:\n%s", what, err, out)
 	}
@@ -353,7 +425,7 @@ func c06Share(cs c06Case, f *dst.File, a dst.Node, fail func(string, string, ...
 		return fail("clone-panic:"+typeName(a2), "Clone panicked: %s", p)
 	}
 	s2.Set(cl)
-	p = guard(func() { out, err = printFile(f2) })
+	p = guard(func() { out, err = c06Print(cs, f2) })
 	if p != "" {
 		if strings.Contains(p, "duplicate node") {
 			return fail("cloned-node-rejected", "%s as a clone: restore panicked: %s", what, p)
